@@ -6,6 +6,7 @@ import RLV.Model.Core
 import RLV.Model.Disp
 import RLV.Model.Esc
 import RLV.Model.Hist
+import RLV.Model.HistCalls
 import RLV.Model.Keys
 import RLV.Model.MLoop
 import RLV.Model.Kill
@@ -71,6 +72,7 @@ def undoSession (ops : List String) (src : List (List Nat) := []) : String := Id
         let cur := Core.checkAppend t.line t.cur
         t := { t with cur := Core.checkAppend t.line { cur with pos := cur.pos + d.toInt?.getD 0 } }
       | ["W", d] => t ← save t; t ← walk t (d.toInt?.getD 0)
+      | ["A"] => t ← acceptAndNextCall (-1) t
       | ["U"] => t ← undo t
       | ["R"] => t ← redo t
       | _ => pure ()
